@@ -21,8 +21,10 @@ def check(prog, rep):
     Z.check_flatten_order(prog, rep, fs, entry)
     Z.check_positional_id_use(prog, rep, fs, entry)
     Z.check_crosstab_keys(prog, rep, m, 'crosstab')
-    from ..sharedrules import check_values_keep_dtype
+    from ..sharedrules import check_values_keep_dtype, check_value_truthiness
     check_values_keep_dtype(prog, rep, 'Z3-dtype', pub, 'crosstab')
+    check_value_truthiness(prog, rep, 'Z3-truth', pub, 'crosstab')
+    rep.floor('Z3-truth', 1)
     rep.floor('Z3-dtype', 1)
     Z.check_crosstab_merge(prog, rep, m, 'crosstab')
     Z.check_strides(prog, rep, m, 'crosstab')      # the stride routine (its cursor is decided there, semantically)
